@@ -736,6 +736,8 @@ func genVals(t *rapid.T, n int, enc string, forceRuns bool) ([]Hex, string) {
 			return Hex(strings.Repeat(string([]byte{byte(id)}), l) + fmt.Sprintf("%x", id))
 		case s.name == "Dummy":
 			return Hex(leBytes(id, 4))
+		case s.name == "OptU16":
+			return Hex(leBytes(id, 2)) // absent when the first byte is a multiple of 3
 		default:
 			return Hex(leBytes(id, w))
 		}
